@@ -45,6 +45,7 @@ var insertAlphabet = []string{":", ";", "|", ".", "-", "[", "]", "{", "}", "(", 
 	// malformed character literals (not tokens of the documented lexical syntax)
 	`'\x7g'`, `'\128'`, `'ab'`, `'\q'`, `'\u12'`, `'\U0000004_'`, `'\x4'`,
 	// characters that look like white space but are not the scanner's (blank, tab, CR, LF)
+	"/", "/", "/ x", "/ /",
 	"\u00a0", "\u2028", "\u3000", "\f", "\v", "\u0085", "\u200b", "\u2003"}
 
 var undefinedProdNames = []string{"Zz", "Undefined", "Q9", "Übung", "Ωmega", "Éa"}
@@ -109,6 +110,11 @@ func mutateGrammar(t *rapid.T, toks []string, muts []string) ([]string, []string
 		return out, append(muts, fmt.Sprintf("delete #%d %q", i, toks[i]))
 	case op <= 4: // insert a token
 		i := rapid.IntRange(0, len(toks)).Draw(t, "insAt")
+		if rapid.IntRange(0, 2).Draw(t, "insAtBoundary") == 0 {
+			// between two definitions, or behind the last one
+			bounds := append(idxOf(func(i int) bool { return toks[i] == ";" }), len(toks)-1)
+			i = rapid.SampledFrom(bounds).Draw(t, "insBoundary") + 1
+		}
 		x := rapid.SampledFrom(insertAlphabet).Draw(t, "insTok")
 		out := append([]string{}, toks[:i]...)
 		out = append(out, x)
